@@ -567,12 +567,6 @@ Proof.
 Qed.
 End Sound.
 
-(* exec is a Gallina function: the outcome (returned values, final heap, exception) is determined by the program,
-   the environment and the heap - there is no hidden state a second call could depend on. *)
-Theorem deterministic : forall P fuel s en h o1 o2, exec P fuel s en h = o1 -> exec P fuel s en h = o2 -> o1 = o2.
-Proof. intros. congruence. Qed.
-
-(* ------------------------------------------------------------------------------------------------ the hypotheses are needed *)
 Definition c7 : val := VScal (CNum (7#1)).
 Definition shallow_copy (x : var) : env -> heap -> option obj :=
   fun en h => match lookup en x with
@@ -580,6 +574,21 @@ Definition shallow_copy (x : var) : env -> heap -> option obj :=
               | _ => None end.
 Definition append_val (v : val) : upd := UObj (fun _ _ o => match o with OList xs => Some (OList (xs ++ [v])) | _ => None end).
 
+(* the hypotheses are satisfiable and the conclusion is about runs that happen:  def f(p): y = list(p); y.append(7); return y *)
+Definition copy_then_write : fdef :=
+  mk_fdef ["p"] None (SSeq (SAssign "y" (EFresh (shallow_copy "p"))) (SSeq (SWrite "y" (append_val c7)) (SReturn ["y"]))).
+Example caller_objects_preserved_applies :
+  prog_ok [("f", copy_then_write)] ["f"] = true /\
+  writes_local ["f"] copy_then_write = true /\ elem_free (f_body copy_then_write) = true /\ returns_fresh ["f"] copy_then_write = true /\
+  invoke [("f", copy_then_write)] 10 copy_then_write [VRef 0] [] [OList [VNone]] = OReturn [VRef 1] [OList [VNone]; OList [VNone; c7]].
+Proof. repeat split; vm_compute; reflexivity. Qed.
+
+(* exec is a Gallina function: the outcome (returned values, final heap, exception) is determined by the program,
+   the environment and the heap - there is no hidden state a second call could depend on. *)
+Theorem deterministic : forall P fuel s en h o1 o2, exec P fuel s en h = o1 -> exec P fuel s en h = o2 -> o1 = o2.
+Proof. intros. congruence. Qed.
+
+(* ------------------------------------------------------------------------------------------------ the hypotheses are needed *)
 (* def f(p): y = list(p); e = y[0]; e.append(7)           the translator reports e.append(7) with origins [Fresh] *)
 Definition nested_body : stmt :=
   SSeq (SAssign "y" (EFresh (shallow_copy "p")))
